@@ -398,7 +398,11 @@ def rebuild_table_cover(ctx, s):
     # the id index drives the copy loop
     it = s.calls(rb, names={"pocket_db::Lmdb::i_iter"})
     app = s.calls(rb, names={"pocket_db::EventStore::store_event"})
-    ctx.floor("C16.rebuild.i_iter", len(it), 1)
+    ctx.instances["C16.rebuild.i_iter"] = len(it)
+    if not it:
+        s.add("S-WHO", rb, "copy-driven-by-id-index", "rebuild", rb.sp, VIOLATION,
+              "rebuild does not iterate the id index: what it copies is not 'one append per retrievable event' "
+              "(unreferenced or duplicate bytes can be carried over, or events skipped)")
     if len(app) != 1:
         s.add("S-WHO", rb, "single-append-loop", "rebuild", rb.sp, VIOLATION,
               "%d append sites in rebuild (expected exactly one, in the loop over the id index)" % len(app))
